@@ -100,23 +100,23 @@ impl Dev {
 // In-process network
 
 #[derive(Default)]
-struct Net {
-    nodes: HashMap<NodeId, VarpulisRaft>,
-    trace: Vec<String>,
-    seq: usize,
+pub struct Net {
+    pub nodes: HashMap<NodeId, VarpulisRaft>,
+    pub trace: Vec<String>,
+    pub seq: usize,
     drop_req: BTreeSet<usize>,
     drop_reply: BTreeSet<usize>,
     isolated: BTreeSet<NodeId>,
     down: BTreeSet<NodeId>,
 }
-type SharedNet = Arc<Mutex<Net>>;
+pub type SharedNet = Arc<Mutex<Net>>;
 
 #[derive(Clone)]
-struct Factory {
-    from: NodeId,
-    net: SharedNet,
+pub struct Factory {
+    pub from: NodeId,
+    pub net: SharedNet,
 }
-struct Client {
+pub struct Client {
     from: NodeId,
     to: NodeId,
     net: SharedNet,
